@@ -158,7 +158,7 @@ func runConc(c *ctx) error {
 	if c.part("random") {
 		rounds, iters := 2, 8
 		if c.tier == "thorough" {
-			rounds, iters = 6, 20
+			rounds, iters = 5, 12
 		}
 		for r := 0; r < rounds; r++ {
 			e.devs = nil
